@@ -126,6 +126,35 @@ func TestC04Weights(t *testing.T) {
 			}
 			cfg.WriteString("\n")
 		}
+		// the same target announced once more with another weight: that is a further target of the route
+		// (only an identical announcement is a duplicate); as the last command it must still be weighed in
+		if rapid.IntRange(0, 2).Draw(t, "readd") == 0 {
+			i := rapid.IntRange(0, n-1).Draw(t, "readd-target")
+			w := genWeight(t)
+			was := ts[i].fixed
+			if was < 0 {
+				was = 0
+			}
+			now := w
+			if now < 0 {
+				now = 0
+			}
+			if was != now {
+				x := ts[i]
+				x.fixed = w
+				ts = append(ts, x)
+				n++
+				hx.Class("target-added-again-with-another-weight-as-the-last-command")
+			}
+			fmt.Fprintf(&cfg, "route add %s /p %s", ts[i].svc, ts[i].url)
+			if w != 0 {
+				fmt.Fprintf(&cfg, " weight %s", fmtW(w))
+			}
+			if len(ts[i].tags) > 0 {
+				fmt.Fprintf(&cfg, " tags %q", strings.Join(ts[i].tags, ","))
+			}
+			cfg.WriteString("\n")
+		}
 		// 'route weight' programs
 		ncmd := rapid.IntRange(0, 6).Draw(t, "nweightcmds")
 		multi := false
@@ -179,9 +208,9 @@ func TestC04Weights(t *testing.T) {
 		}
 		want := refWeights(ts)
 		sum := 0.0
-		byURL := map[string]int{}
+		byURL := map[*route.Target]int{} // (keyed by the target itself: the same URL may be on a route twice)
 		for i, tg := range r.Targets {
-			byURL[tg.URL.String()] = i
+			byURL[tg] = i
 			if tg.URL.String() != ts[i].url {
 				t.Fatalf("target order changed")
 			}
@@ -218,7 +247,7 @@ func TestC04Weights(t *testing.T) {
 					if tg == nil {
 						t.Fatalf("lookup returned nil")
 					}
-					cnt[byURL[tg.URL.String()]]++
+					cnt[byURL[tg]]++
 				}
 				return cnt
 			}
@@ -265,7 +294,7 @@ func TestC04Weights(t *testing.T) {
 				cr := make([]int, n)
 				for k := 0; k < ring; k++ {
 					tg := tbl.Lookup(req, "", route.Picker["rnd"], route.Matcher["prefix"], cache, false)
-					cr[byURL[tg.URL.String()]]++
+					cr[byURL[tg]]++
 				}
 				restore()
 				for i := range cr {
